@@ -1,9 +1,9 @@
 (* C06 -- property theorems only.  Ring regime: every statement holds over EVERY commutative ring
    (carrier F with the operations of an `fops` record satisfying ring_theory; instances: Z, R),
    for every order / shape / rank / weights / factors, with no size bound. *)
-From Coq Require Import List Arith ZArith Reals Bool Ring Lia.
+From Coq Require Import List Arith ZArith Reals Bool Ring Lia Lra.
 From TLV Require Import Base.Shape Base.PyList Base.Tensor Base.BigSum Base.Ops Model.Errors
-     Proofs.ErrorsProofs Proofs.ErrorsSkeleton Proofs.ErrorsSkeletonCP Proofs.ErrorsP2 Proofs.ErrorsTR.
+     Proofs.ErrorsProofs Proofs.ErrorsSkeleton Proofs.ErrorsSkeletonCP Proofs.ErrorsP2 Proofs.ErrorsTR Proofs.ErrorsReal Proofs.ErrorsLoops.
 Import ListNotations.
 
 (* squared-error expansion over an arbitrary index space:  sum (X - Y)^2 = sum X^2 + sum Y^2 - 2 sum X Y *)
@@ -219,6 +219,51 @@ Theorem C06_skeleton_wrong_pairing_refuted :
 Proof. exact skeleton_wrong_pairing_refuted. Qed.
 Print Assumptions C06_skeleton_wrong_pairing_refuted.
 
+(* ---- the reported VALUES over the reals: sqrt, abs and the division by the norm inside the model.  reported q nx = sqrt(|q|)/sqrt(nx)
+   is what the shortcuts return (q = quantity under the sqrt, nx = ||X||^2); rel_error d2 nx = sqrt(d2)/sqrt(nx) *)
+Theorem C06_error_calc_reported_value : forall (s : list nat) (X : list nat -> R) (Rk : nat) (w u v : nat -> R) (cols : nat -> list (nat -> R)) (n : nat),
+  n < length s -> (forall r, r < Rk -> length (cols r) = length s) -> (forall r, r < Rk -> (u r * v r)%R = w r) ->
+  reported (err2_fast Rops s X Rk w u v cols n) (normsq Rops s X)
+  = rel_error (dist2 Rops s X (cp_entry Rops Rk w cols)) (normsq Rops s X).
+Proof. exact error_calc_reported_value. Qed.
+Print Assumptions C06_error_calc_reported_value.
+Theorem C06_hooi_reported_value : forall (s rs : list nat) (X G : list nat -> R) (us : list (nat -> nat -> R)),
+  orthonormal Rops s rs us -> (forall j, inb rs j -> G j = project Rops s X us j) ->
+  reported (hooi_err2 Rops s rs X G) (normsq Rops s X) = rel_error (dist2 Rops s X (tucker_entry Rops rs G us)) (normsq Rops s X).
+Proof. exact hooi_reported_value. Qed.
+Print Assumptions C06_hooi_reported_value.
+Theorem C06_parafac2_reported_value : forall (I K Rk : nat) (J : nat -> nat) (X P : nat -> nat -> nat -> R) (A Bm C : nat -> nat -> R),
+  reported (p2_err2_fast Rops I K Rk J X P A Bm C (p2_tmp_proj Rops Rk J X P A Bm)) (p2_normX Rops I K J X)
+  = rel_error (p2_err2_true Rops I K Rk J X P A Bm C) (p2_normX Rops I K J X).
+Proof. exact parafac2_reported_value. Qed.
+Print Assumptions C06_parafac2_reported_value.
+(* the square of the relative error is the ratio the correspondence compares, and the value is never negative *)
+Theorem C06_rel_error_square : forall d2 nx : R, (0 <= d2)%R -> (0 < nx)%R -> (rel_error d2 nx * rel_error d2 nx)%R = (d2 / nx)%R.
+Proof. exact rel_error_sq. Qed.
+Print Assumptions C06_rel_error_square.
+(* the abs under the square root keeps its argument non-negative whatever the rounding perturbation; without it (PARAFAC2
+   before b590c64) an exact fit and a negative perturbation leave a negative argument (NaN in floating point) *)
+Theorem C06_abs_guard_total : forall q delta : R, sqrt_arg_ok (Rabs (q + delta)).
+Proof. exact abs_guard_total. Qed.
+Print Assumptions C06_abs_guard_total.
+Theorem C06_unguarded_sqrt_refuted : exists q delta : R, (0 <= q)%R /\ (Rabs delta <= 1 / 1000000)%R /\ ~ sqrt_arg_ok (q + delta).
+Proof. exact unguarded_sqrt_refuted. Qed.
+Print Assumptions C06_unguarded_sqrt_refuted.
+
+(* ---- loops that compute one explicit residual per iteration (CMTF since d036ea5, the non-negative Tucker variants, HOOI, randomised
+   CP since 28121fa): for every oracle (updates, convergence stops, callback stops) the last recorded value is the error of the returned iterate,
+   provided the value is recorded before the callback may stop the run OR the callback never stops it *)
+Theorem C06_explicit_loop_last_report : forall (St E : Type) (err : St -> E) (Or : soracle St) (record_before_callback : bool),
+  record_before_callback = true \/ (forall it, s_cb_stop Or it = false) ->
+  forall (n : nat) (init : St), 0 < n -> s_last_ok St E err (s_loop err Or record_before_callback n 0 init []).
+Proof. exact s_loop_sound. Qed.
+Print Assumptions C06_explicit_loop_last_report.
+(* recording AFTER the callback (randomised_parafac before fix 28121fa) is not sound: a callback stop leaves the previous iterate's error *)
+Theorem C06_randomised_callback_stop_legacy_refuted :
+  exists (Or : soracle nat) (n : nat) (init : nat), 0 < n /\ ~ s_last_ok nat nat (fun st => st) (s_loop (fun st : nat => st) Or false n 0 init []).
+Proof. exact s_loop_callback_stop_refuted. Qed.
+Print Assumptions C06_randomised_callback_stop_legacy_refuted.
+
 (* ---- non-vacuity: the hypotheses are satisfiable and the model computes *)
 Example C06_ring_Z : ring_theory (f0 Zops) (f1 Zops) (fadd Zops) (fmul Zops) (fsub Zops) (fopp Zops) (@eq Z).
 Proof. exact Zth. Qed.
@@ -294,3 +339,13 @@ Example C06_parafac2_skeleton_nonvacuous :
   p2_loop (fun st : nat => st) toy_p2 true false false 7 0 0 [] = (7, [1; 2; 3; 4; 5; 6; 7]) /\
   p2_loop (fun st : nat => st) toy_p2 true false true 7 0 0 [] = (7, [1; 2; 3; 4; 5; 6]).
 Proof. exact p2_skeleton_nonvacuous. Qed.
+
+(* the reported-value theorems are not vacuous: a 1-entry "tensor" 3 approximated by the rank-1 CP value 1: reported = 2/3 *)
+Example C06_reported_nonvacuous : reported 4 9 = (2 / 3)%R /\ rel_error 4 9 = (2 / 3)%R.
+Proof.
+  unfold reported, rel_error. rewrite Rabs_pos_eq by lra.
+  replace 4%R with (2 * 2)%R by ring. replace 9%R with (3 * 3)%R by ring. rewrite !sqrt_square by lra. split; reflexivity.
+Qed.
+Example C06_explicit_loop_nonvacuous :
+  s_loop (fun st : nat => st) toy_s true 5 0 0 [] = (2, [1; 2]) /\ s_loop (fun st : nat => st) toy_s false 5 0 0 [] = (2, [1]).
+Proof. exact s_loop_nonvacuous. Qed.
